@@ -224,6 +224,7 @@ for kind in ('int', 'dec', 'float'):
         argument_case('2.0', 'round', kind),
         post=[
             ('half_toward_positive_infinity', "not is_finite(arg) or (returned and is_round(result, arg))"),
+            ('zero_results_keep_the_sign_of_the_argument', "not (is_float(arg) and is_finite(arg) and returned and exact(result) == 0) or sign_bit(result) == sign_bit(arg)"),
             ('result_class_is_argument_class', "not returned or same_class(result, arg)"),
             ('nan_inf_passthrough', "is_finite(arg) or (returned and is_nan(result) == is_nan(arg) and inf_sign(result) == inf_sign(arg))"),
             ('only_coded_errors', "returned or raised_code is not None"),
@@ -235,6 +236,7 @@ for kind in ('int', 'dec', 'float'):
             argument_case('2.0', sym, kind),
             post=[
                 ('value', f"not is_finite(arg) or (returned and {spec})"),
+                ('zero_results_keep_the_sign_of_the_argument', "not (is_float(arg) and is_finite(arg) and returned and exact(result) == 0) or sign_bit(result) == sign_bit(arg)"),
                 ('result_class_is_argument_class', "not returned or same_class(result, arg)"),
                 ('nan_inf_passthrough', "is_finite(arg) or (returned and is_nan(result) == is_nan(arg) and inf_sign(result) == inf_sign(arg))"),
                 ('only_coded_errors', "returned or raised_code is not None"),
@@ -245,6 +247,7 @@ for kind in ('int', 'dec', 'float'):
         argument_case('2.0', 'abs', kind),
         post=[
             ('value', "not is_finite(arg) or (returned and exact(result) == abs(exact(arg)))"),
+            ('no_negative_zero', "not (is_float(arg) and is_finite(arg) and returned and exact(result) == 0) or not sign_bit(result)"),
             ('result_class_is_argument_class', "not returned or same_class(result, arg)"),
             ('nan_inf', "is_finite(arg) or (returned and is_nan(result) == is_nan(arg) and inf_sign(result) == abs(inf_sign(arg)))"),
             ('only_coded_errors', "returned or raised_code is not None"),
@@ -258,6 +261,7 @@ for kind in ('int', 'dec', 'float'):
                'falls back to double arithmetic, which is not modelled: A-FP)'] if kind == 'dec' else [],
         post=[
             ('half_to_even', "not is_finite(arg) or (returned and exact(result) == half_even_spec(arg))"),
+            ('zero_results_keep_the_sign_of_the_argument', "not (is_float(arg) and is_finite(arg) and returned and exact(result) == 0) or sign_bit(result) == sign_bit(arg)"),
             ('result_class_is_argument_class', "not returned or same_class(result, arg)"),
             ('nan_inf_passthrough', "is_finite(arg) or (returned and is_nan(result) == is_nan(arg) and inf_sign(result) == inf_sign(arg))"),
             ('only_coded_errors', "returned or raised_code is not None"),
@@ -392,7 +396,7 @@ for k1, k2 in FLOAT_PAIRS:
              "beyond(op1, op2) or not (is_finite(op1) and inf_sign(op2) != 0) or "
              "(is_zero(result) and sign_bit(result) == (sign_bit(op1) != sign_bit(op2)))"),
         ],
-        specs=FSPECS, native=binary_native('2.0', 'div'), samples=mixed_pairs((k1, k2)), expect_min_obligations=7))
+        inline=('float_result',), specs=FSPECS, native=binary_native('2.0', 'div'), samples=mixed_pairs((k1, k2)), expect_min_obligations=7))
     CONTRACTS.append(Contract(
         f'idiv.{k1}.{k2}', 'C06', token_method('2.0', 'idiv', 'evaluate'),
         operands_case('2.0', 'idiv', k1, k2),
@@ -428,7 +432,7 @@ for k1, k2 in FLOAT_PAIRS:
              "not is_zero(result) or not is_float(op1) or sign_bit(result) == sign_bit(op1)"),
             ('result_is_double', "not returned or is_float(result)"),
         ],
-        specs=FSPECS, native=binary_native('2.0', 'mod'), samples=mixed_pairs((k1, k2)), expect_min_obligations=3))
+        inline=('float_result',), specs=FSPECS, native=binary_native('2.0', 'mod'), samples=mixed_pairs((k1, k2)), expect_min_obligations=3))
     for sym, name in (('+', 'plus'), ('-', 'minus'), ('*', 'times')):
         CONTRACTS.append(Contract(
             f'{name}.{k1}.{k2}', 'C06', token_method('2.0', sym, 'evaluate'),
@@ -626,7 +630,114 @@ def double_arithmetic(tier, seed):
                      'rounded once to nearest-even', 'rule': 'distinct = (operator, zero/sign/magnitude-order class of the pair)'}
 
 
-BOUNDED = [Bounded('big_number_rounding', big_rounding), Bounded('double_arithmetic_vs_rational', double_arithmetic)]
+def xs_float_arithmetic(tier, seed):
+    """xs:float operands: result type, special values (signed zeros, INF on overflow of the single-precision range, NaN)
+    and finite values against double arithmetic on the same operands (the library keeps xs:float values in a double:
+    finite results are compared with a relative tolerance of 1e-6, i.e. single precision; that representation choice is
+    not judged here)."""
+    import decimal as _d
+    F_MAX = 3.4028235e38
+    fl = [XsFloat(x) for x in (0.0, -0.0, 1.0, -1.0, 1.5, -2.5, 0.1, 3.0, 3e38, -3e38, 1e-30, math.inf, -math.inf)] + [XsFloat('NaN')]
+    others = [('xs:integer', 0), ('xs:integer', 2), ('xs:integer', -3), ('xs:decimal', _d.Decimal('1.5')), ('xs:decimal', _d.Decimal('-0.5')),
+              ('xs:decimal', _d.Decimal('0'))]
+    dbl = [2.0, -0.0, 1e300, math.inf]
+    fails, n, seen = {}, 0, set()
+
+    def bad(k, **w):
+        fails.setdefault(k, []).append(w)
+
+    def clamp(v):
+        if math.isnan(v):
+            return v
+        if v > F_MAX:
+            return math.inf
+        if v < -F_MAX:
+            return -math.inf
+        return v
+
+    def same(g, w):
+        if math.isnan(w):
+            return isinstance(g, float) and math.isnan(g)
+        if w == 0 or math.isinf(w):
+            return g == w and math.copysign(1, g) == math.copysign(1, w)
+        if abs(w) < 1e-37 and g == 0:
+            # below the normal single-precision range: a result flushed to a zero of the right sign is accepted
+            return math.copysign(1, g) == math.copysign(1, w)
+        return math.isclose(g, w, rel_tol=1e-6)
+
+    def pyop(op, a, b):
+        a, b = float(a), float(b)
+        if op == '+':
+            return a + b
+        if op == '-':
+            return a - b
+        if op == '*':
+            if (a == 0 and math.isinf(b)) or (b == 0 and math.isinf(a)):
+                return math.nan
+            return a * b
+        if op == 'div':
+            if b == 0:
+                return math.nan if a == 0 or math.isnan(a) else math.copysign(math.inf, math.copysign(1, a) * math.copysign(1, b))
+            return a / b
+        if op == 'mod':
+            if b == 0 or math.isinf(a) or math.isnan(a) or math.isnan(b):
+                return math.nan
+            return math.fmod(a, b)
+    pairs = [(a, b, 'float', 'float') for a in fl for b in fl]
+    pairs += [(a, v, 'float', t) for a in fl for t, v in others] + [(v, a, t, 'float') for a in fl for t, v in others]
+    pairs += [(a, b, 'float', 'double') for a in fl for b in dbl] + [(b, a, 'double', 'float') for a in fl for b in dbl]
+    for a, b, ta_, tb in pairs:
+        for op in ('+', '-', '*', 'div', 'mod'):
+            n += 1
+            seen.add((op, ta_, tb))
+            got = eval_native('3.1', f'$a {op} $b', a=a, b=b)
+            if (a != a or b != b) is False and (math.isinf(float(a)) and math.isinf(float(b)) and op in ('+', '-')):
+                w = pyop(op, a, b)
+            else:
+                w = pyop(op, a, b)
+            double_result = 'double' in (ta_, tb)
+            w = w if double_result else clamp(w)
+            if got[0] != 'return' or not isinstance(got[1], float):
+                bad(f'xs:float arithmetic does not return a float value ({ta_} {op} {tb})', a=repr(a), b=repr(b), got=repr(got)[:120])
+                continue
+            g = got[1]
+            if isinstance(g, XsFloat) == double_result:
+                bad(f'result type of {ta_} {op} {tb} is not xs:{"double" if double_result else "float"}', a=repr(a), b=repr(b), got=type(g).__name__)
+            if not same(float(g), w):
+                bad(f'value of {ta_} {op} {tb} differs from IEEE arithmetic clamped to the xs:float range', a=repr(a), b=repr(b), got=repr(float(g)), expected=repr(w))
+    for a in fl:
+        for fn, py in (('-$a', lambda x: -x), ('+$a', lambda x: x), ('abs($a)', abs), ('floor($a)', lambda x: x if math.isinf(x) or math.isnan(x) or x == 0 else float(math.floor(x))),
+                       ('ceiling($a)', lambda x: x if math.isinf(x) or math.isnan(x) else math.copysign(float(math.ceil(x)), x) if math.ceil(x) == 0 else float(math.ceil(x))),
+                       ('round($a)', lambda x: x if math.isinf(x) or math.isnan(x) or x == 0 else (math.copysign(0.0, x) if -0.5 <= x < 0 else float(math.floor(x + 0.5)))),
+                       ('round-half-to-even($a)', lambda x: x if math.isinf(x) or math.isnan(x) else math.copysign(float(round(x)), x) if round(x) == 0 else float(round(x)))):
+            n += 1
+            seen.add((fn,))
+            got = eval_native('3.1', fn, a=a)
+            w = py(float(a))
+            if got[0] != 'return' or not isinstance(got[1], float):
+                bad(f'{fn} on an xs:float does not return a float value', a=repr(a), got=repr(got)[:120])
+                continue
+            if not isinstance(got[1], XsFloat):
+                bad(f'result type of {fn} on an xs:float is not xs:float', a=repr(a), got=type(got[1]).__name__)
+            if not same(float(got[1]), w):
+                bad(f'value of {fn} on an xs:float', a=repr(a), got=repr(float(got[1])), expected=repr(w))
+    # constructor: signed zero and range clamps
+    for text, w in (('-0', -0.0), ('0', 0.0), ('-0.0', -0.0), ('-1e-50', -0.0), ('1e-50', 0.0), ('3.5e38', math.inf), ('-3.5e38', -math.inf), ('-INF', -math.inf)):
+        n += 1
+        seen.add(('ctor', text))
+        got = eval_native('3.1', f"xs:float('{text}')")
+        if got[0] != 'return' or not isinstance(got[1], XsFloat) or not same(float(got[1]), w):
+            bad('xs:float constructor: signed zero / range clamp', text=text, got=repr(got)[:80], expected=repr(w))
+    fl_fails = [{'key': k, 'items': it[:4], 'count': len(it), 'what': f'{k}: e.g. {it[0]}'} for k, it in fails.items()]
+    return {'evaluations': n, 'distinct': len(seen), 'failures': fl_fails, 'n_failures': len(fl_fails),
+            'scope': f'{len(pairs)} operand pairs with at least one xs:float (14 xs:float values incl. signed zeros, range limits, INF, NaN; integer, decimal and '
+                     'double partners) x 5 operators, 7 unary operators/functions x 14 values, 8 constructor texts: result type, special values and '
+                     'finite values within 1e-6 relative of IEEE arithmetic clamped to the single-precision range',
+            'rule': 'distinct = (operator, operand types)'}
+
+
+BOUNDED = [Bounded('big_number_rounding', big_rounding), Bounded('double_arithmetic_vs_rational', double_arithmetic),
+           Bounded('xs_float_types_and_special_values', xs_float_arithmetic)]
 
 NOT_DECIDED = [
     'IEEE 754 results of finite double/float arithmetic (computed inside CPython/libm): special-value tables are proved, '
